@@ -3,7 +3,7 @@ From Coq Require Import ZArith List Bool Lia ZifyBool.
 From PBC Require Import Base.CInt Base.Bits Gen.LeafC Spec.Wire
      Impl.Desc Impl.Mem Impl.Enc Impl.Pack Impl.WF Impl.Unpack Impl.Canon
      Proofs.LeafEnc Proofs.EncLemmas Proofs.LeafDec Proofs.SizePack Proofs.ScanRec Proofs.ScanRecs
-     Proofs.CellRT2 Proofs.FieldRT Proofs.FieldPkg Proofs.FieldPkg2 Proofs.MsgInd Proofs.MsgRT Proofs.MsgRT2 Proofs.MsgRT3.
+     Proofs.CellRT2 Proofs.FieldRT Proofs.FieldPkg Proofs.FieldPkg2 Proofs.MsgInd Proofs.MsgRT Proofs.MsgRT2 Proofs.MsgRT3 Proofs.MemberCount.
 Import ListNotations.
 Local Open Scope Z_scope.
 
@@ -234,7 +234,7 @@ Hypothesis EO : env_ok E = true.
 
 Definition rt_stmt (m : msg) : Prop :=
   canon_msg E m = true ->
-  forall fuel b, pack_msg E m = Ok b -> zlen b <= 2147483647 -> (length b < fuel)%nat ->
+  forall fuel b, pack_msg E m = Ok b -> zlen b <= max_input -> (length b < fuel)%nat ->
   unpack E fuel (m_desc m) b = Ok m /\ (forall x, In x b -> 0 <= x < 256).
 
 Theorem roundtrip_canonical : forall m, rt_stmt m.
@@ -251,8 +251,9 @@ Proof.
     rewrite !andb_true_iff in C. destruct C as [[[Cn Cs] Cu] Ck]. apply Nat.eqb_eq in Cn.
     pose proof (env_desc E EO d md Ed) as D.
     destruct fuel as [|k]; [lia|].
-    set (lim := Z.min 2147483647 (Z.of_nat k)).
-    assert (Hlim : lim <= 2147483647) by (subst lim; lia).
+    set (lim := Z.min max_input (Z.of_nat k)).
+    assert (Hlim : lim <= 2147483647) by (subst lim; unfold max_input; lia).
+    assert (Hlim' : lim <= max_input) by (subst lim; lia).
     set (usub := unpack E k).
     (* the induction hypothesis in the form the field lemmas use *)
     assert (SUB : forall v, (forall m', v = VMsg (Some m') -> rt_stmt m') ->
@@ -322,6 +323,8 @@ Proof.
         (length (concat (map q_r qs)) + (length unk + (S (length a + length U) - length (concat (map q_r qs)) - length unk)))%nat by lia.
       rewrite S1, S2. destruct (S (length a + length U) - length (concat (map q_r qs)) - length unk)%nat; cbn [scan_loop]; rewrite A2; reflexivity. }
     rewrite Hscan. cbn [bind].
+    (* the member count is within the slab table: two bytes per member at least *)
+    rewrite (member_limit_ok _ _ _ _ Hscan eq_refl Hlen).
     (* phase 2: allocation pass *)
     rewrite B2, B1, SL2, SL1. cbn [app]. rewrite <- Q1.
     rewrite (alloc_quads qs Q5). cbn [bind].
